@@ -98,7 +98,8 @@ class Monitor:
 
 K8 = ['None', '1', '1.0', '2', 'nan#1', 'nan#2', "'a'", 'dt']
 K6 = [0, 1, 2, 4, 5, 6]
-K4 = [0, 1, 4, 6]
+K4 = [1, 4, 5, 6]        # 1, nan#1, nan#2, 'a'
+K3 = [1, 4, 5]
 
 
 def mk(i, nans):
@@ -446,9 +447,9 @@ def suites(tier, seed):
                             'either side, None/auto, * and /, [] = cross product) x every mode (None,l,r,0,1,left,rhs,callable)',
                        bounds=dict(left_rows=2, right_rows=1)))
         S.append(Suite('keys2', lambda: gen_basic(K4, 2, 1, ncol=2), check_basic,
-                       rule='two key columns over the 4-value sub-domain {None,1,nan#1,a}: all pairs 0..2 x 0..1 rows', bounds=dict(ncol=2)))
-        S.append(Suite('keys3', lambda: gen_basic([1, 4], 1, 2, ncol=3), check_basic,
-                       rule='three key columns over {1, nan#1}: all pairs 0..1 x 0..2 rows', bounds=dict(ncol=3)))
+                       rule='two key columns over the 4-value sub-domain {1,nan#1,nan#2,a} (two NaN identities): all pairs 0..2 x 0..1 rows', bounds=dict(ncol=2)))
+        S.append(Suite('keys3', lambda: gen_basic(K3, 1, 1, ncol=3), check_basic,
+                       rule='three key columns over {1, nan#1, nan#2}: all pairs 0..1 x 0..1 rows', bounds=dict(ncol=3)))
     else:
         S.append(Suite('keys1', lambda: gen_basic(range(8), 3, 3), check_basic,
                        rule='all pairs of tables with 0..3 x 0..3 rows, one key column over the 8-value domain %s; join, xor, xor(mode=r) under the '
@@ -459,7 +460,7 @@ def suites(tier, seed):
         S.append(Suite('spellings', lambda: gen_spell(2, 2), check_spellings,
                        rule='all pairs 0..2 x 0..2 rows over the 8-value domain x every key spelling x every mode', bounds=dict(left_rows=2, right_rows=2)))
         S.append(Suite('keys2', lambda: gen_basic(K4, 2, 2, ncol=2), check_basic,
-                       rule='two key columns over {None,1,nan#1,a}: all pairs 0..2 x 0..2 rows', bounds=dict(ncol=2)))
-        S.append(Suite('keys3', lambda: gen_basic([1, 4], 2, 2, ncol=3), check_basic,
-                       rule='three key columns over {1, nan#1}: all pairs 0..2 x 0..2 rows', bounds=dict(ncol=3)))
+                       rule='two key columns over {1,nan#1,nan#2,a}: all pairs 0..2 x 0..2 rows', bounds=dict(ncol=2)))
+        S.append(Suite('keys3', lambda: gen_basic(K3, 2, 1, ncol=3), check_basic,
+                       rule='three key columns over {1, nan#1, nan#2}: all pairs 0..2 x 0..1 rows', bounds=dict(ncol=3)))
     return S
